@@ -128,7 +128,10 @@ def mk(**kw):
         d["at"] = "e"
         d["pre"] = d["vl"]
     if d["act"] == "206":
-        d["uob"] = min(d["uob"], d["vl"])
+        # use-original-body must point into what squid surely holds when the reply arrives: nothing is certain when the stub acts
+        # before reading any body byte, the preview when it acts after it, everything after it read the whole body
+        sure = d["vl"] if d["at"] not in ("h", "p") else (min(preview_ad(d) or 0, d["vl"]) if d["at"] == "p" else 0)
+        d["uob"] = min(d["uob"], sure)
     if d["ch"] and d["al"] // d["ch"] > 3000:
         d["ch"] = 0          # tens of thousands of tiny chunks only slow the stubs down
     return fmt(d)
@@ -311,8 +314,9 @@ def compare(line, impl, model):
         # a truncated request may not have left squid at all when the abort came
         if ("AT" in want or "VT" in want) and got in ("E", "0"):
             return True
-    if (d["m"] == "rs" or d["act"] == "200r") and "AT" in want and got == "A" and d["acl"] == 1 and obs["c"]["relA"] == "eq":
-        return True      # every announced byte arrived before the abort: the client cannot see it
+    who = obs["o"] if (d["m"] == "rq" and obs["o"]["n"] >= 1) else obs["c"]
+    if "AT" in want and got == "A" and d["acl"] == 1 and who["relA"] == "eq":
+        return True      # every announced (Content-Length) byte arrived before the abort: the recipient cannot see it
     if d["m"] == "rs" and "VT" in want and got == "V" and d["vk"] == "k" and obs["c"]["relV"] == "eq":
         return True
     if ("AT" in want and got == "E") or ("VT" in want and got == "E"):
@@ -340,10 +344,19 @@ def tag(line, impl, model):
 
 # ------------------------------------------------------------------------------------------------ known findings
 
+def stalls_behind_virgin_body(d):
+    """RESPMOD: the service answered while squid still holds the whole received virgin prefix as a backup (nothing consumed) and the origin has
+    more body to send than the virgin pipe can take: nobody tells the origin side that the body is no longer wanted"""
+    return (d["m"] == "rs" and d["act"] in ("200", "200n", "206") and d["cut"] == "-" and d["at"] in ("h", "p") and preview_ad(d) is not None
+            and d["pre"] < d["vl"] and d["vl"] > CAP)
+
+
 def classify(line, impl, why):
     d = parse(line)
     if d is None or not why:
         return None
+    if why.startswith("complete ICAP 200 but the recipient got AT") and stalls_behind_virgin_body(d) and d["acl"] == 0:
+        return "C60-adapted-reply-stalls-behind-unconsumed-virgin-body"
     if why.startswith("no usable observation: abort:squid-died"):
         if d["act"] == "206x" and d["u"] == 1 and has_body(d) and d["cut"][0] != "i" and "Segment_Violation" in impl:
             return "C60-206-without-http-head-segfault"
@@ -415,7 +428,7 @@ def gen_fault(rng, big):
     if k < 3:
         return mk(m=m, p=p, b=b, u=rng.below(2), vk=vk, vl=vl, pre=pre, at=at, act=rng.choice(ERRS), end=rng.choice(["k", "c"]))
     if k < 5:
-        return mk(m=m, p=p, b=b, u=rng.below(2), vk=vk, vl=vl, pre=pre, at=at, act=rng.choice(["g", "x", "r", "x", "100"]))
+        return mk(m=m, p=p, b=b, u=rng.below(2), vk=vk, vl=vl, pre=pre, at=at, act=rng.choice(["g", "x", "r", "x", "g"]))
     act = rng.choice(["200", "200", "204", "200n", "206"] + (["200r"] if m == "rq" else []) + ERRS[:2])
     cut = rng.choice(cuts_for(rng, act, al))
     return mk(m=m, p=p, b=b, u=1 if act == "206" else rng.below(2), vk=vk, vl=vl, pre=pre, at=at, act=act, al=al, acl=rng.below(2), ch=rng.choice([0, 7, 1000]),
@@ -449,7 +462,7 @@ def exhaustive_small():
                     for at in ("h", "p", "e"):
                         for act, cut, end in (("204", "-", "k"), ("200", "-", "k"), ("200n", "-", "c"), ("e500", "-", "k"), ("x", "-", "k"), ("r", "-", "k"),
                                               ("g", "-", "k"), ("200", "i9", "c"), ("200", "t9", "c"), ("200", "b0", "c"), ("200", "b2", "r"), ("200", "z", "c"),
-                                              ("204", "i9", "c"), ("100", "-", "k")):
+                                              ("204", "i9", "c"), ("206", "-", "k")):
                             out.append(mk(m=m, p=p, b=b, vk=vk, vl=vl, at=at, act=act, al=4, ch=3, cut=cut, end=end))
     return out
 
@@ -467,7 +480,7 @@ def gen_fatal(rng):
 
 def cases(rng, tier):
     thorough = tier == "thorough"
-    n = 1500 if thorough else 260
+    n = 1000 if thorough else 260
     seen = set()
     out = []
 
